@@ -136,6 +136,8 @@ def run(ctx: lib.Ctx) -> None:
                 'component of a registered key, two unregistered words} as the last error of a list of 1..4 errors, against the real registry; '
                 'realistic protocol names (018-Proxford, alpha, 000-Ps9mPmXa, ...) and chunks with non-word characters in the prefix position x every <category>.<name>, and at random positions; '
                 'the same code under 40 (thorough 300) substituted registries keyed by full ids, prefix-less ids, names and categories; empty and '
+                'classes registered the real way inside the harness (class statements with protocol-qualified full ids, short ids, names, lists of ids; '
+                '__handlers__ swapped for a scratch dict and restored) - dump compared with the model\'s build, and the registered ids looked up under the same / another / no protocol; '
                 'degenerate identifiers. non-trivial = some variant of the identifier is registered; distinct = distinct (registry, error ids)')
     real = dict(node_mod.RpcError.__handlers__)
     real_named = {k: v.__name__ for k, v in real.items()}
@@ -236,6 +238,80 @@ def run(ctx: lib.Ctx) -> None:
                 ident = '.'.join(ctx.rng.choice(pool) for _ in range(ctx.rng.choice([1, 2, 2, 3, 4, 4, 4, 5])))
             add(ri, prefix_errors() + [ident], 'substituted')
 
+    # ---- registration the real way: class statements with error_id=..., then dump __handlers__ and look ids up
+    dcases, dmeta = [], []
+    qual = ['006-PsCARTHA', '018-Proxford', 'alpha', PROTO_HASH]
+
+    def gen_id():
+        r = ctx.rng.random()
+        base = '.'.join(ctx.rng.choice(['contract', 'michelson_v1', 'tez', 'balance_too_low', 'script_rejected', 'bad_return', 'foo'])
+                        for _ in range(ctx.rng.choice([1, 1, 2, 2, 3])))
+        if r < 0.4:
+            return f'proto.{ctx.rng.choice(qual)}.{base}'      # protocol-qualified full id
+        if r < 0.5:
+            return f'proto.{base}'
+        return base
+
+    for _ in range(ctx.n(60, 400)):
+        scratch: dict = {}
+        decls = []
+        with Swapped(node_mod, scratch):
+            for ci in range(ctx.rng.choice([1, 2, 3, 5])):
+                ids = [gen_id() for _ in range(ctx.rng.choice([1, 1, 1, 2, 3]))]
+                name = f'Seeded{ci}'
+                ok, val = lib.call(type, name, (node_mod.RpcError,), {}, error_id=ids if (len(ids) > 1 or ctx.rng.random() < 0.2) else ids[0])
+                if ok:
+                    decls.append((ids, name))
+            dumped = {k: v.__name__ for k, v in scratch.items()}
+            # lookups: the registered ids themselves, the same ids under another / no protocol, their short forms, random ids
+            probes = set()
+            for ids, _n in decls:
+                for i in ids:
+                    ch = i.split('.')
+                    probes.add(i)
+                    if ch[0] == 'proto' and len(ch) > 2:
+                        probes.add('.'.join(ch[2:]))
+                        probes.add(f'proto.{ctx.rng.choice(qual)}.' + '.'.join(ch[2:]))
+                    else:
+                        probes.add(f'proto.{ctx.rng.choice(qual)}.{i}')
+                    probes.add(ch[-1])
+            probes.add(gen_id())
+            for ident in sorted(probes):
+                errors = [{'id': ident}]
+                obs = observe(node_mod, errors)
+                # (B) independent of the model: the dict must hold exactly the declared ids (last declaration wins) ...
+                want_reg = {}
+                for ids, nm in decls:
+                    for i in ids:
+                        want_reg[i] = nm
+                ctx.case(('decl', tuple((tuple(i), n) for i, n in decls), ident), nontrivial=True, kind='registered-the-real-way',
+                         sample={'class_statements': decls, 'handlers_afterwards': dumped, 'error_id': ident, 'raised': list(obs)})
+                dcases.append((f'({clist(f"({clist(cident(i) for i in ids)}, {cchunk(nm)})" for ids, nm in decls)}, {creg(sorted(dumped.items()))}, [{cident(ident)}])',
+                               f'(true, {cobs(obs)})'))
+                dmeta.append((decls, dumped, want_reg, ident, obs))
+    dbad = ctx.coq_mismatches(f'register{os.getpid()}', IMPORTS, 'run_decl_case', 'decl_obs_eqb',
+                              'list (list ident * string) * registry string * list ident', 'bool * raised string', dcases,
+                              shard=ctx.n(1000, 3000), prelude=intern_prelude())
+    dfails = []
+    for idx, (decls, dumped, want_reg, ident, obs) in enumerate(dmeta):
+        why = spec_check(want_reg, [{'id': ident}], obs)
+        if why:
+            why += f' (classes registered by the statements {decls})'
+        rank = 0
+        if not why and dumped != want_reg:
+            rank = 1
+            why = f'after the class statements {decls} the registry holds {dumped}, expected the declared ids verbatim {want_reg}'
+        if why:
+            dfails.append((rank, len(decls), len(ident), idx, why))
+    dfails.sort()
+    for *_k, idx, why in dfails[:2]:
+        decls, dumped, want_reg, ident, obs = dmeta[idx]
+        ctx.violation(f'error mapping violated: {why}',
+                      {'class_statements': [{'error_id': ids if len(ids) > 1 else ids[0], 'class': nm} for ids, nm in decls],
+                       'handlers_afterwards': dumped, 'errors': [{'id': ident}], 'raised': list(obs),
+                       'repro': 'from pytezos.rpc.node import RpcError; ' + '; '.join(f'{nm} = type({nm!r}, (RpcError,), {{}}, error_id={(ids if len(ids) > 1 else ids[0])!r})' for ids, nm in decls) +
+                                f"; print(type(RpcError.from_errors([{{'id': {ident!r}}}])), RpcError.__handlers__)"})
+
     prelude = intern_prelude() + regs_def
     bad = ctx.coq_mismatches(f'errormap{os.getpid()}', IMPORTS, 'run_case regs', 'raised_eqb', 'nat * list ident', 'raised string', cases,
                              shard=ctx.n(1000, 3000), prelude=prelude)
@@ -256,12 +332,15 @@ def run(ctx: lib.Ctx) -> None:
                        'repro': ("import pytezos.rpc.errors; from pytezos.rpc.node import RpcError; " +
                                  ('' if ri == 0 else 'RpcError.__handlers__ = {k: getattr(pytezos.rpc.errors, v) for k, v in registry.items()}; ') +
                                  f"print(type(RpcError.from_errors({[{'id': i} for i in ids]!r})))")})
-    if real_named != expected_tbl and not fails:
+    if dfails:
+        pass
+    elif real_named != expected_tbl and not fails:
         diff = {k: (real_named.get(k), expected_tbl.get(k)) for k in set(real_named) | set(expected_tbl) if real_named.get(k) != expected_tbl.get(k)}
         ctx.violation('the registered error classes differ from the table the theorems are stated for',
                       {'correspondence': 'C27/RpcError.__handlers__ vs Client.ErrorMap.handlers', 'difference (repo, model)': diff}, found=False)
-    elif not fails and (bad or tbl_bad):
-        rep = {'correspondence': 'C27/RpcError.from_errors vs Client.ErrorMap.from_errors', 'table_mismatch': bool(tbl_bad)}
+    elif not fails and (bad or tbl_bad or dbad):
+        rep = {'correspondence': 'C27/RpcError.from_errors + __init_subclass__ vs Client.ErrorMap.from_errors + build', 'table_mismatch': bool(tbl_bad),
+               'registration_mismatches': len(dbad)}
         if bad:
             ri, ids, obs = meta[bad[0]]
             rep.update({'registry': named[ri], 'errors': [{'id': i} for i in ids], 'raised': list(obs), 'disagreements': len(bad),
